@@ -412,3 +412,30 @@ func ByName(n string) *T {
 	}
 	return nil
 }
+
+// Boundary places one value of every scalar kind behind a pad of chosen length, with a long tail after
+// it, so that each value can be put at every offset relative to a buffer boundary of the codec.
+type Boundary struct {
+	Pad  string
+	I    int32
+	L    int64
+	F    float64
+	T    time.Time
+	S    string
+	B    []byte
+	P    *Inner
+	Q    *Inner
+	Tail string
+}
+
+// MapHolder is a struct with a one-entry map (many of them make many nested non-empty maps).
+type MapHolder struct {
+	M map[string]int32
+	N int32
+}
+
+// SlMapHolder is a list of MapHolder.
+type SlMapHolder struct {
+	L   []MapHolder
+	End int32
+}
